@@ -164,6 +164,7 @@ def count_traces(c, path, fields):
 
 
 def check_C11(c):
+    c.proof("SessionProof", note="Spec => []Inv_C11_Unique for ANY MaxOps / MaxOpen (inductive invariant, TLAPS), given MonotonicHandles")
     c.model("Session", "Session.quick.cfg", note="exhaustive: <=6 requests, <=3 open handles")
     for mech, inv in [("MonotonicHandles", "Inv_C11_Unique"), ("CloseDeletes", "Inv_C11_NeverTwice"), ("SweepOnExit", "Inv_C11_ClosedOnce"),
                       ("TErrOnlyOpen", "Inv_C11_TErrExactlyOpen"), ("DropFailedOpen", "Inv_C11_StaleNotValid")]:
@@ -263,6 +264,7 @@ def check_C07(c):
 
 
 def check_C03(c):
+    c.proof("ClientConnProof", note="Spec => []Inv_C03_DistinctIds for ANY set of callers (inductive invariant, TLAPS), given AtomicNextId")
     if c.tier == "thorough":
         c.model("ClientConn", "ClientConn.thorough.cfg", note="4 callers, reader failure + cancellation at every step (writer failure off); safety + deadlock", timeout=1800, workers=12)
     c.model("ClientConn", "ClientConn.cancel.cfg", note="exhaustive: 3 callers (2 with header+payload writes), peer answers in any order, reader/writer may fail at any step, "
